@@ -18,8 +18,8 @@ numbers of `countF` (C11–C13; as naturals: the Rust computes in `usize`, exact
 ≤ 64, `CountsWord.count_word_exact`) — EXCEPT `mem` under the default feature set, which prints zeros
 (`zeroMemoLine`; found by running this model against the binary). `{:?}` of `ModelCounts` is the derived `Debug`.
 
-NOT modelled: `--import` (the input is a JSON state instead of a text: `serde_json::from_str` +
-`fix_import`, C14's model), `--export` (a side effect on the file system, nothing on stdout). -/
+`--import` and `--export` (naive arm only) are modelled separately in `CliIO.lean` (`CliM.runTextIO`: the
+binary with a file-system snapshot); `--counter` is not combined with them there. -/
 namespace CliM
 open ParserM FromParser Cli
 
